@@ -162,6 +162,7 @@ func (p *Path) mapLookup(m *Map, k Value) (Value, bool) {
 }
 
 func (p *Path) mapUpdate(m *Map, k, v Value) {
+	p.writes++
 	e := p.mapFind(m, k)
 	p.noteWrite(m)
 	if e != nil {
